@@ -145,11 +145,16 @@ func C14(args []string) error {
 				}
 				add(v.A.G >= 0, gldap.WithGraceAuthNsRemaining(uint(sym.num(v.A.G, maxI31))))
 				add(v.A.E >= 0, gldap.WithSecondsBeforeExpiration(uint(sym.num(v.A.E, maxI31))))
-				cc := v.A.C
-				if cc == 1000000 {
-					cc = maxI31
+				cc := uint(v.A.C)
+				switch v.A.C {
+				case 1000000:
+					cc = uint(maxI31)
+				case 2000000:
+					cc = ^uint(0) - 1
+				case 3000000:
+					cc = ^uint(0)
 				}
-				add(v.A.C >= 0, gldap.WithErrorCode(uint(cc)))
+				add(v.A.C >= 0, gldap.WithErrorCode(cc))
 				rmu.Lock()
 				rnd.Shuffle(len(opts), func(a, b int) { opts[a], opts[b] = opts[b], opts[a] })
 				rmu.Unlock()
